@@ -40,6 +40,17 @@ def payloads(rng, tier):
     for m in fixed:
         for t in (1, 2, 3, 4):
             yield "coding_graph", {"k": 2, "mask": m, "t": t, "dtype": "int"}
+    # structured masks: a closed core (every k-mer over a sub-alphabet of d letters: exactly d^k vertices, out-degree d) plus
+    # a few extra vertices that have to be trimmed away - the smallest possible closed graphs for each threshold
+    for _ in range({"quick": 400, "thorough": 4000, "search": 200}[tier]):
+        k = rng.randint(1, min(kmax, 4))
+        d = rng.randint(1, 4)
+        letters = rng.sample(range(4), d)
+        mask = [1 if all(((v // 4 ** i) % 4) in letters for i in range(k)) else 0 for v in range(4 ** k)]
+        for v in rng.sample(range(4 ** k), rng.choice([0, 1, 1, 2, 3])):
+            mask[v] = 1
+        yield "coding_graph", {"k": k, "mask": mask, "t": rng.choice([1, d, d, max(1, d - 1), min(4, d + 1)]),
+                               "dtype": rng.choice(["bool", "int"])}
     for i in range(n):
         k = rng.choice([1, 2, 2, 2, 3, 3, 4, 5][: kmax + 3])
         k = min(k, kmax)
